@@ -430,7 +430,17 @@ def gen_cases(ctx, quick):
         q, combs = gen_queries(r, rows, D, 2)
         cases.append({"topic": "proj", "label": "d>D", "method": m, "N": N, "D": D, "d": 5, "k": 6,
                       "seed": 1, "rows": rows, "q": q, "combs": combs, "exact": False})
-    return cases
+    # the harness parses numbers with std::stoll (harness/vcommon.hpp): a numerator or denominator of 2^63 or more makes
+    # the HARNESS throw (std::stoll), which is not an observation of tapkee.  Per-element power-of-two units combined in
+    # convex / affine queries can exceed that (seen in the thorough tier) - such cases are dropped and counted.
+    def width_ok(c):
+        nums = [v for row in c.get("rows", []) for v in row] + [v for qq in c.get("q", []) for v in qq]
+        nums += [v for row in c.get("all", []) or [] for v in row]
+        return all(abs(Fraction(v).numerator) < 2 ** 62 and Fraction(v).denominator < 2 ** 62 for v in nums)
+    kept = [c for c in cases if width_ok(c)]
+    if len(kept) != len(cases):
+        ctx.stat("skipped:number-wider-than-the-harness-parser", len(cases) - len(kept))
+    return kept
 
 
 def build(ctx):
